@@ -377,7 +377,7 @@ func (m *Machine) nameTerm(t *Term) *Term {
 		return t
 	}
 	m.defs++
-	n := fmt.Sprintf("|d!%d|", m.defs)
+	n := fmt.Sprintf("|T#%d|", m.defs)
 	m.sol.Send(fmt.Sprintf("(define-fun %s () %s %s)", n, sortOf(t), t.S))
 	c := *t
 	c.S = n
